@@ -34,6 +34,7 @@ def norm_seq(ctx, f):
         c = re.sub(r"<(alloc::string::String|proc_macro2::Ident|syn::path::Path) as", "<KEY as", c)
         c = re.sub(r"alloc::string::String|proc_macro2::Ident|syn::path::Path", "KEY", c)
         c = re.sub(r"MAP<[^>]*>", "MAP", c)
+        c = c.replace("syn::gen::clone::<impl core::clone::Clone for KEY>::clone", "<KEY as core::clone::Clone>::clone")
         if "with_capacity_and_hasher" in c or c.endswith("MAP::new") or c.endswith("Default::default") or "Default>::default" in c or c == "core::slice::<impl [T]>::len" or "with_capacity" in c:
             continue
         if re.search(r"MAP::.*::(new|with_capacity_and_hasher)$", c):
